@@ -21,6 +21,15 @@ O2  lookup precedence, bounded-exhaustive.  For the names n, now, today: every s
     nil, false, 0, '', [] and {}: a binding to a falsy-looking value is still a binding,
     so the lookup must stop there; extra sites (== nil, == false, == empty, | json) and
     a StrictUndefined environment tell nil apart from "undefined".
+    Block-layer constructions cover every tag that binds names: with, for and tablerow
+    loop variables, include/render keyword arguments, bound variables and `as` aliases,
+    macro parameters and defaults, translate keyword arguments (lookup site = the message
+    variable; `count` enumerated as a name of its own), lambda parameters of every
+    lambda filter, and the objects forloop / tablerowloop / args / kwargs; locals come
+    from assign and capture, counters from increment and decrement.  In include /
+    render / extends contexts the partial's OWN loader matter is a further layer: whether
+    it is visible at all is undocumented (HEAD ignores it), but it may never outrank a
+    block, a local or a render() argument.
 O2c the same oracle on the 2nd and 3rd get_template() of one name through front-matter
     style loaders built on CachingDictLoader, CachingFileSystemLoader (real files in a
     temp dir, async under a private event loop) and CachingChoiceLoader, sync and async,
@@ -33,6 +42,7 @@ O2c the same oracle on the 2nd and 3rd get_template() of one name through front-
 
 from __future__ import annotations
 
+import collections
 import copy
 import os
 import random
@@ -72,6 +82,10 @@ ASSUMPTIONS = [
     "list/dict subclasses are accepted wherever liquid2 accepts list/dict "
     "(isinstance-based dispatch); C-level mutation that bypasses overridden methods "
     "(list.sort(x), heapq, dict.update(d, …)) is only seen by the deep comparison",
+    "caller data also includes mappings that may insert a key when a missing one is read "
+    "(collections.defaultdict, a dict subclass with an inserting __missing__, Counter, "
+    "ChainMap); these are not instrumented, only deep-compared; a change confined to them "
+    "is keyed mutation:<filter|tag>:deep-diff(auto-vivify):any-layer",
     "a refused mutation raises MutationRefused(TypeError); two thirds of the O1 shards "
     "refuse, one third permit-and-log so the deep-diff monitor also sees real changes",
     "counter layer value is 3 (three increments executed before the lookup, their "
@@ -165,7 +179,7 @@ class Universe:
             return r
         if isinstance(o, tuple):
             return tuple(self._freeze(x, layer, f"{label}[{i}]") for i, x in enumerate(o))
-        if isinstance(o, dict):
+        if type(o) is dict:
             d = FrozenDict(
                 (k, self._freeze(v, layer, k if label.endswith("*") else f"{label}.{k}"))
                 for k, v in o.items()
@@ -180,7 +194,7 @@ class Universe:
         if self.permit:
             self.dirty = True
 
-    def diff(self) -> list[tuple[str, str]]:
+    def diff(self) -> list[tuple[str, str, str]]:
         """[(layer, description)] for every layer that is no longer equal to its snapshot."""
         out = []
         for layer in LAYERS:
@@ -191,22 +205,27 @@ class Universe:
             except Exception as e:  # noqa: BLE001
                 eq = False
                 same = False
-                out.append((layer, f"equality raised {type(e).__name__}"))
+                out.append((layer, f"equality raised {type(e).__name__}", ""))
                 continue
             if same and eq:
                 continue
             desc = "changed"
+            changed = ""
             before = self.plain[layer]
             keys = list(dict.keys(before))
             nowkeys = list(dict.keys(now))
             if keys != nowkeys:
                 desc = f"top-level names {keys} -> {nowkeys}"
             else:
-                for k in keys:
-                    if canon(before[k]) != canon(dict.__getitem__(now, k)):
-                        desc = f"{k}: {before[k]!r} -> {dict.__getitem__(now, k)!r}"[:300]
-                        break
-            out.append((layer, desc))
+                names = [k for k in keys
+                         if canon(before[k]) != canon(dict.__getitem__(now, k))]
+                if names:
+                    k = names[0]
+                    desc = (f"{k}: {before[k]!r} -> {dict.__getitem__(now, k)!r}"[:300]
+                            + f" (changed names: {names})")
+                    changed = k if all(
+                        n.split("_", 1)[-1] in VIVIFY_RELS for n in names) else ""
+            out.append((layer, desc, changed))
         return out
 
 
@@ -284,6 +303,17 @@ def canon(o: Any) -> Any:
     return (type(o).__name__, repr(o))
 
 
+class Vivifying(dict):
+    """A dict subclass whose __missing__ inserts the key (like defaultdict)."""
+
+    def __missing__(self, key: Any) -> Any:
+        self[key] = v = []
+        return v
+
+
+VIVIFY_RELS = ("dd", "viv", "counter", "chain")
+
+
 def _raw_layer(p: str, rng: random.Random) -> dict[str, Any]:
     nums = [3, 1, 2, 3, -5, 10]
     strs = ["b", "A", "c10", "c9", "a", "b"]
@@ -315,6 +345,11 @@ def _raw_layer(p: str, rng: random.Random) -> dict[str, Any]:
         f"{p}_tup": ([2, 1], "x", (3, [7, 6])),
         f"{p}_empty": [],
         f"{p}_emap": {},
+        # mappings that (may) create entries when a missing key is read
+        f"{p}_dd": collections.defaultdict(list, {"a": [1], "b": [2, 1]}),
+        f"{p}_viv": Vivifying({"a": [1], "b": [2, 1]}),
+        f"{p}_counter": collections.Counter({"a": 2, "b": 1}),
+        f"{p}_chain": collections.ChainMap({"a": [1]}, {"b": [2, 1]}),
         f"{p}_s": f"hello, {p} world",
         f"{p}_i": 7 + k,
         f"{p}_f": 2.5,
@@ -525,6 +560,7 @@ class O1:
         self.permit = permit
         self.last_status = ""
         self._good: dict[str, list[int]] = {}
+        self._culprits: dict[tuple[str, str], str | None] = {}
         self.reset()
 
     def reset(self) -> None:
@@ -627,11 +663,21 @@ class O1:
                         dict(wit_base, event=[layer, label, method, subj, where]),
                     )
         diffs = U.diff()
-        for layer, desc in diffs:
+        for layer, desc, changed in diffs:
             if layer in logged_layers:
                 continue  # already reported with the precise method
-            culprit = self.attribute(case) if record else None
-            key = f"mutation:{culprit or subject}:deep-diff:{layer}"
+            how, lay = "deep-diff", layer
+            if changed:
+                # only mappings whose __missing__ inserts the key changed: the object
+                # itself grows when a missing key is read (one mechanism, any layer)
+                how, lay = "deep-diff(auto-vivify)", "any-layer"
+            culprit = None
+            if record:
+                ck = (subject, how)
+                if ck not in self._culprits:
+                    self._culprits[ck] = self.attribute(case)
+                culprit = self._culprits[ck] if changed else self.attribute(case)
+            key = f"mutation:{culprit or subject}:{how}:{lay}"
             keys.append(key)
             if record:
                 ctx.violation(
@@ -687,22 +733,36 @@ class O1:
             cn = type(slf).__name__
             return cn[:-4].lower() if cn.endswith("Node") and len(cn) > 4 else cn
 
+        stack: list[str] = []
+
+        def enter(slf: Any) -> None:
+            # a change seen when a child starts happened in the enclosing node/filter
+            # (e.g. while a tag evaluated its own expression)
+            if changed():
+                found.append(stack[-1] if stack else "template")
+            stack.append(name_of(slf))
+
+        def leave() -> None:
+            nm = stack.pop()
+            if changed():
+                found.append(nm)
+
         def wrap_sync(orig):  # noqa: ANN001, ANN202
             def w(slf, *a, **k):  # noqa: ANN001, ANN002, ANN003, ANN202
+                enter(slf)
                 try:
                     return orig(slf, *a, **k)
                 finally:
-                    if changed():
-                        found.append(name_of(slf))
+                    leave()
             return w
 
         def wrap_async(orig):  # noqa: ANN001, ANN202
             async def w(slf, *a, **k):  # noqa: ANN001, ANN002, ANN003, ANN202
+                enter(slf)
                 try:
                     return await orig(slf, *a, **k)
                 finally:
-                    if changed():
-                        found.append(name_of(slf))
+                    leave()
             return w
 
         try:
@@ -831,6 +891,45 @@ def _chain_cases(o1: "O1", filters: list[tuple[str, str]], rng: random.Random, n
         yield _case(subject, "".join(stmts), partials, i, "std", fail)
 
 
+VIVIFY_FORMS = {
+    "path": "{{ {P}.missing }}{{ {P}['x y'] }}{{ {P}.a }}{{ {P}.a.first }}{{ {P}.nosuch.deeper }}",
+    "path-size": "{{ {P}.size }}",
+    "path-first": "{{ {P}.first }}{{ {P}.last }}",
+    "output": "{{ {P} }}{{ {P} | json }}",
+    "if": "{% if {P}.w %}a{% endif %}{% if {P} contains 'w' %}b{% endif %}{% if 'w' in {P} %}c{% endif %}"
+          "{% if {P}.w == 1 %}d{% endif %}{% unless {P}.u %}e{% endunless %}",
+    "case": "{% case {P}.w %}{% when 1 %}a{% else %}b{% endcase %}",
+    "assign": "{% assign z = {P}.w %}{{ z }}{% capture c %}{{ {P}.w2 }}{% endcapture %}",
+    "with": "{% with a: {P}.w %}{{ a }}{% endwith %}",
+    "for": "{% for x in {P} %}{{ x[0] }}{% endfor %}{% for x in {P}.w %}{{ x }}{% endfor %}",
+    "tablerow": "{% tablerow x in {P}.w %}{{ x }}{% endtablerow %}",
+    "cycle": "{% cycle {P}.w, 1 %}",
+    "include": "{% include 'q' with {P}.w as item %}{% include 'q', item: {P}.w2 %}",
+    "render": "{% render 'q' with {P}.w as item %}{% render 'q', item: {P}.w2 %}",
+    "macro": "{% macro m a %}{{ a }}{% endmacro %}{% call m {P}.w %}",
+    "translate": "{% translate a: {P}.w %}x {{ a }}{% endtranslate %}",
+    "default": "{{ {P}.w | default: 1 }}{{ {P}.w if {P}.w2 else 3 }}",
+    "lambda": "{{ {P} | map: i => i.w }}{{ E_objs | map: i => {P}.w3 }}",
+    "template-string": "{{ \"${{P}.w}\" }}",
+    "range": "{% for i in (1..{P}.w) %}{% endfor %}",
+}
+
+
+def _vivify_cases(filters: list[tuple[str, str]]) -> Iterator[dict[str, Any]]:
+    idx = 0
+    for layer in LAYERS:
+        for rel in VIVIFY_RELS:
+            P = f"{PREFIX[layer]}_{rel}"  # noqa: N806
+            for tname, form in VIVIFY_FORMS.items():
+                idx += 1
+                ek = "shopify" if tname == "tablerow" else "std"
+                yield _case(tname, form.replace("{P}", P), {"q": "({{ item }})"}, idx, ek)
+            for fname, kind in filters:
+                for arg in ("", ": 'zz'", ": 'zz', 1", ": i => i.zz"):
+                    idx += 1
+                    yield _case(fname, f"{{{{ {P} | {fname}{arg} }}}}", {}, idx, kind)
+
+
 def _run_o1(spec: dict[str, Any], ctx: Ctx) -> None:
     kind = spec["kind"]
     i, n, tier, seed = spec["i"], spec["n"], spec["tier"], spec["seed"]
@@ -841,6 +940,8 @@ def _run_o1(spec: dict[str, Any], ctx: Ctx) -> None:
         gen = _filter_cases(o1, filters, tier, i, n)
     elif kind == "tags":
         gen = _tag_cases(tier, i, n)
+    elif kind == "vivify":
+        gen = _vivify_cases(filters)
     else:
         rng = random.Random(f"{seed}:chains:{i}")
         gen = _chain_cases(o1, filters, rng, 500 if tier == "quick" else 20000)
@@ -919,6 +1020,10 @@ VAL = {"block": "vB", "local": "vL", "render-arg": "vR", "matter": "vM",
 COUNTER_N = 3
 DECOY = {"xO": "outer-block", "xL": "caller-local", "xB": "caller-block", "5": "caller-counter"}
 NAMES = ("n", "now", "today")
+# `count` is bound by {% translate count: … %}: enumerated in the translate variants only
+COUNT_NAME = "count"
+COUNT_VALUE = 7
+PARTIAL_MATTER = "xB"  # value a partial's own matter binds the name to (pm cases)
 RE_NOW = re.compile(r"^\d{4}-\d\d-\d\d \d\d:\d\d:\d\d(\.\d+)?$")
 RE_TODAY = re.compile(r"^\d{4}-\d\d-\d\d$")
 OPEN, CLOSE = "\u00ab", "\u00bb"
@@ -931,7 +1036,11 @@ FALSY_LITERAL = {"nil": "nil", "false": "false", "zero": "0", "estr": "''"}
 LOOSE = "\x00loose"  # printing a hash directly is undocumented: only "not another layer"
 
 
-def sites(N: str, only: str | None = None, extended: bool = False) -> str:  # noqa: N803
+REDUCED_SITES = ("out", "default", "ifchain", "ifout", "isnil", "empty", "json")
+
+
+def sites(N: str, only: str | None = None, extended: bool = False,  # noqa: N803
+          reduced: bool = False) -> str:
     chain = "".join(
         f"{{% {'if' if j == 0 else 'elsif'} {N} == '{v}' %}}{v}"
         for j, v in enumerate(list(VAL.values()) + list(DECOY)[:3])
@@ -961,6 +1070,8 @@ def sites(N: str, only: str | None = None, extended: bool = False) -> str:  # no
             ("empty", f"{{% if {N} == empty %}}empty{{% else %}}notempty{{% endif %}}"),
             ("json", f"{{{{ {N} | json }}}}"),
         ]
+    if reduced and not only:
+        s = [(k, body) for k, body in s if k in REDUCED_SITES]
     return "".join(f"{OPEN}{k}:{body}{CLOSE}" for k, body in s if only in (None, k))
 
 
@@ -979,8 +1090,10 @@ def expected_layer(name: str, present: set[str]) -> str | None:
     return None
 
 
-def expected_text(kind: str, layer: str | None) -> str | None:
+def expected_text(kind: str, layer: str | None, vals: dict[str, Any] | None = None) -> str | None:
     """Exact expected text, or None when a shape (built-in) is expected."""
+    if vals is not None and layer in vals and vals[layer] != VAL.get(layer):
+        return str(vals[layer])  # only print sites exist where a layer's value differs
     if layer is None:
         return {"default": "undef", "ifchain": "none", "case": "else", "ternary": "none",
                 "ifout": "none"}.get(kind, "")
@@ -1042,6 +1155,8 @@ def profile_values(name: str, mask: int, falsy: dict[str, Any] | None):
     """(value of every valued layer, layers given the falsy value, resolving layer) or
     None when the profile does not apply to this subset."""
     vals: dict[str, Any] = dict(VAL)
+    if name == COUNT_NAME:
+        vals["block"] = COUNT_VALUE  # {% translate count: 7 %}
     present = _layers(mask)
     chain = [la for la in ORDER
              if la in present or (la == "builtin" and name in ("now", "today"))]
@@ -1061,12 +1176,54 @@ def profile_values(name: str, mask: int, falsy: dict[str, Any] | None):
 
 
 CONTEXTS = {
-    "root": ["with-0", "with-1", "with-2", "with-3", "for-0", "for-2", "nested-0"],
-    "include": ["plain", "kw", "inner", "bind", "bind-for"],
-    "render": ["with", "kw", "bind", "bind-for", "with+decoy", "kw+decoy"],
-    "macro": ["with", "param", "default", "with+decoy"],
-    "extends": ["with-0", "with-2"],
+    "root": ["with-0", "with-1", "with-2", "with-3", "for-0", "for-2", "nested-0",
+             "tablerow-0", "withcap-0", "withdec-0", "translate-s", "translate-p"],
+    "include": ["plain", "kw", "inner", "bind", "bind-for", "alias", "alias-for",
+                "translate"],
+    "render": ["with", "kw", "bind", "bind-for", "with+decoy", "kw+decoy", "alias",
+               "alias-for", "translate"],
+    "macro": ["with", "param", "default", "with+decoy", "translate"],
+    "extends": ["with-0", "with-2", "translate"],
+    "lambda": ["root:" + f for f in ("map", "where", "reject", "find", "find_index", "has",
+                                     "sort", "sort_natural", "sort_numeric", "uniq",
+                                     "compact", "sum", "index")]
+    + ["render:" + f for f in ("map", "where", "sort", "uniq", "sum", "index")],
 }
+# variants added after the first calibration; the quick tier runs them with two of the
+# four api/mode combinations and only the nil/false falsy profiles
+LATE_VARIANTS = {"tablerow-0", "withcap-0", "withdec-0", "alias", "alias-for"}
+# what a lambda filter prints when its parameter (bound to each item) wins inside the
+# lambda body; any outer binding of the same name gives something else
+LAMBDA_EXPR = {
+    "map": ("{{ c10src | map: %N => %N | join: '' }}", "vB"),
+    "where": ("{{ c10src | where: %N => %N == 'vB' | join: '' }}", "vB"),
+    "reject": ("{{ c10src | reject: %N => %N != 'vB' | join: '' }}", "vB"),
+    "find": ("{{ c10src | find: %N => %N == 'vB' }}", "vB"),
+    "find_index": ("{{ c10src | find_index: %N => %N == 'vB' }}", "0"),
+    "has": ("{{ c10src | has: %N => %N == 'vB' }}", "true"),
+    "sort": ("{{ c10objs | sort: %N => %N.k | map: 'v' | join: '' }}", "yx"),
+    "sort_natural": ("{{ c10objs | sort_natural: %N => %N.k | map: 'v' | join: '' }}", "yx"),
+    "sort_numeric": ("{{ c10objs | sort_numeric: %N => %N.k | map: 'v' | join: '' }}", "yx"),
+    "uniq": ("{{ c10objs | uniq: %N => %N.k | size }}", "2"),
+    "compact": ("{{ c10objs | compact: %N => %N.k | size }}", "2"),
+    "sum": ("{{ c10objs | sum: %N => %N.k }}", "3"),
+    "index": ("{{ c10src | map: (c10it, %N) => %N | join: '' }}", "0"),
+}
+LAMBDA_HELPERS = {"c10src": ["vB"], "c10objs": [{"k": 2, "v": "x"}, {"k": 1, "v": "y"}]}
+
+
+def variants_for(name: str, context: str) -> list[str]:
+    if name == COUNT_NAME:
+        return [] if context == "lambda" else ["translate-count"]
+    return CONTEXTS[context]
+
+
+def site_count(context: str, variant: str, only: str | None, falsy: Any) -> int:
+    if only or context == "lambda" or variant.startswith("translate"):
+        return 1
+    if falsy and falsy.get("reduced"):
+        return len(REDUCED_SITES)
+    return NSITES_EXT if falsy else NSITES
 
 
 # variants in which the "block" layer is an argument of an isolated scope (render
@@ -1076,6 +1233,7 @@ CONTEXTS = {
 # of the same contexts cover block-vs-local.
 ARGUMENT_VARIANTS = {
     ("render", "kw"), ("render", "bind"), ("render", "bind-for"),
+    ("render", "alias"), ("render", "alias-for"),
     ("macro", "param"), ("macro", "default"),
 }
 
@@ -1095,6 +1253,8 @@ def build(name: str, mask: int, context: str, variant: str, only: str | None = N
         v = vals[layer]
         if isinstance(v, str) and v:
             return f"'{v}'"
+        if isinstance(v, int) and not isinstance(v, bool) and v:
+            return str(v)
         assert falsy is not None
         if falsy["lit"] and falsy["kind"] in FALSY_LITERAL:
             return FALSY_LITERAL[falsy["kind"]]
@@ -1107,7 +1267,45 @@ def build(name: str, mask: int, context: str, variant: str, only: str | None = N
         src_setup, src = "", "c10items"  # helper environment global: [falsy value]
     inc = (f"{{% increment {N} %}}" * COUNTER_N) if C else ""
     asg = f"{{% assign {N} = {lit('local')} %}}" if L else ""
-    S = sites(N, only, bool(falsy))  # noqa: N806
+    S = sites(N, only, bool(falsy), bool(falsy and falsy.get("reduced")))  # noqa: N806
+    marker = f"{OPEN}out:{{{{ {N} }}}}{CLOSE}"
+
+    def tr(plural: bool) -> str:
+        """The lookup site is the message variable of a translate tag whose keyword
+        argument is the block layer (both branches carry the marker; one renders)."""
+        targs = []
+        if B and N != COUNT_NAME:
+            targs.append(f"{N}: {vb}")
+        if plural or (B and N == COUNT_NAME):
+            targs.append(f"count: {COUNT_VALUE}")
+            return ("{% translate " + ", ".join(targs) + " %}" + marker + "{% plural %}"
+                    + marker + "{% endtranslate %}")
+        return "{% translate " + ", ".join(targs) + " %}" + marker + "{% endtranslate %}"
+
+    if context == "lambda":
+        where, fname = variant.split(":")
+        expr = f"{OPEN}out:" + LAMBDA_EXPR[fname][0].replace("%N", N) + CLOSE
+        if where == "root":
+            return {"root": inc + asg + expr}
+        return {"root": "{% render 'p' %}", "p": inc + asg + expr}
+    if variant.startswith("translate"):
+        T = tr(variant == "translate-p")  # noqa: N806
+        if context == "root":
+            return {"root": inc + asg + T}
+        if context == "extends":
+            return {"root": "{% extends 'base' %}{% block content %}" + inc + asg + T + "{% endblock %}",
+                    "base": "<{% block content %}base{% endblock %}>"}
+        if context == "include":
+            return {"root": inc + asg + "{% include 'p' %}", "p": T}
+        if context == "render":
+            return {"root": "{% render 'p' %}", "p": inc + asg + T}
+        return {"root": "{% macro m %}" + inc + asg + T + "{% endmacro %}{% call m %}"}
+    if variant.startswith("withcap") and L and vals["local"] == VAL["local"]:
+        asg = f"{{% capture {N} %}}{VAL['local']}{{% endcapture %}}"
+    if variant.startswith("withdec") and C:
+        inc = f"{{% decrement {N} %}}" + f"{{% increment {N} %}}" * (COUNTER_N + 1)
+    if variant.startswith(("withcap", "withdec")):
+        variant = "with" + variant[7:]
 
     def block(kind: str) -> tuple[str, str]:
         if not B:
@@ -1116,6 +1314,8 @@ def build(name: str, mask: int, context: str, variant: str, only: str | None = N
             return f"{{% with {N}: {vb} %}}", "{% endwith %}"
         if kind == "for":
             return (src_setup + f"{{% for {N} in {src} %}}", "{% endfor %}")
+        if kind == "tablerow":
+            return (src_setup + f"{{% tablerow {N} in {src} %}}", "{% endtablerow %}")
         return (f"{{% with {N}: 'xO', c10pad: 1 %}}{{% with {N}: {vb} %}}",
                 "{% endwith %}{% endwith %}")
 
@@ -1157,6 +1357,12 @@ def build(name: str, mask: int, context: str, variant: str, only: str | None = N
         if variant == "bind":
             arg = f" with {vb}" if B else ""
             return {"root": inc + asg + f"{{% include '{N}'{arg} %}}", N: S}
+        if variant == "alias":
+            arg = f" with {vb} as {N}" if B else ""
+            return {"root": inc + asg + f"{{% include 'p'{arg} %}}", "p": S}
+        if variant == "alias-for":
+            arg = f" for {src} as {N}" if B else ""
+            return {"root": src_setup + inc + asg + f"{{% include 'p'{arg} %}}", "p": S}
         arg = f" for {src}" if B else ""
         return {"root": src_setup + inc + asg + f"{{% include '{N}'{arg} %}}", N: S}
     if context == "render":
@@ -1168,6 +1374,12 @@ def build(name: str, mask: int, context: str, variant: str, only: str | None = N
         if variant == "bind":
             arg = f" with {vb}" if B else ""
             return {"root": f"{{% render '{N}'{arg} %}}", N: inc + asg + S}
+        if variant == "alias":
+            arg = f" with {vb} as {N}" if B else ""
+            return {"root": f"{{% render 'p'{arg} %}}", "p": inc + asg + S}
+        if variant == "alias-for":
+            arg = f" for {src} as {N}" if B else ""
+            return {"root": src_setup + f"{{% render 'p'{arg} %}}", "p": inc + asg + S}
         arg = f" for {src}" if B else ""
         return {"root": src_setup + f"{{% render '{N}'{arg} %}}", N: inc + asg + S}
     if context == "macro":
@@ -1198,22 +1410,28 @@ class O2:
         self._envs: dict[Any, Any] = {}
         self.view: list[str] = []
 
-    def env(self, name: str, evalue: Any, falsy: dict[str, Any] | None):  # noqa: ANN201
+    def env(self, name: str, evalue: Any, falsy: dict[str, Any] | None,  # noqa: ANN201
+            flavour: str = ""):
         """Environment whose globals hold the env-global layer (evalue is a 1-tuple when
         the layer is present) and, for falsy profiles, the helper globals."""
         fk = falsy["kind"] if falsy else None
         strict = bool(falsy and falsy["strict"])
-        k = (name, repr(evalue), fk, strict)
+        k = (name, repr(evalue), fk, strict, flavour)
         e = self._envs.get(k)
         if e is None:
             g: dict[str, Any] = {}
+            if flavour == "lambda":
+                g.update(copy.deepcopy(LAMBDA_HELPERS))
             if evalue:
                 g[name] = evalue[0]
             if falsy:
                 g["c10f"] = copy.deepcopy(FALSY[fk])
                 g["c10items"] = [copy.deepcopy(FALSY[fk])]
             kw = {"undefined": self.StrictUndefined} if strict else {}
-            e = self.Environment(loader=self.Loader({}, {}), globals=g or None, **kw)
+            cls = self.Environment
+            if flavour == "shopify":  # the tablerow tag lives in the shopify environment
+                from liquid2.shopify import Environment as cls  # noqa: N813
+            e = cls(loader=self.Loader({}, {}), globals=g or None, **kw)
             self._envs[k] = e
         return e
 
@@ -1225,15 +1443,23 @@ class O2:
         only = case.get("only")
         falsy = case.get("falsy")
         fk = falsy["kind"] if falsy else None
-        nsites_expected = 1 if only else (NSITES_EXT if falsy else NSITES)
+        nsites_expected = site_count(context, variant, only, falsy)
         vals, targets, _ = profile_values(name, mask, falsy)
         tpls = build(name, mask, context, variant, only, falsy)
+        flavour = ("lambda" if context == "lambda"
+                   else "shopify" if variant.startswith("tablerow") else "")
         env = self.env(
-            name, (vals["env-global"],) if mask & BIT["env-global"] else (), falsy
+            name, (vals["env-global"],) if mask & BIT["env-global"] else (), falsy, flavour
         )
         env.loader.templates = tpls
         matter = {name: vals["matter"]} if mask & BIT["matter"] else None
         env.loader.matter = {"root": matter} if matter else {}
+        pm = bool(case.get("pm"))
+        if pm:
+            # every partial carries matter of its own binding the same name
+            for tname in tpls:
+                if tname != "root":
+                    env.loader.matter[tname] = {name: PARTIAL_MATTER}
         tg = {name: vals["template-global"]} if mask & BIT["template-global"] else None
         keys: list[str] = []
         nsites = 0
@@ -1245,7 +1471,7 @@ class O2:
                 ctx.violation(key, what, dict(
                     {"o": "O2", "name": name, "mask": mask, "context": context,
                      "variant": variant, "api": api, "mode": mode, "args": style,
-                     "only": only, "falsy": falsy,
+                     "only": only, "falsy": falsy, "pm": pm,
                      "steps": steps, "layers_present": sorted(_layers(mask)),
                      "templates": tpls}, **extra))
 
@@ -1308,10 +1534,12 @@ class O2:
                 continue
             for kind, text in found:
                 nsites += 1
-                if falsy and exp in targets:
-                    want: str | None = expected_falsy(kind, fk)
+                if context == "lambda":
+                    want: str | None = LAMBDA_EXPR[variant.split(":")[1]][1]
+                elif falsy and exp in targets:
+                    want = expected_falsy(kind, fk)
                 else:
-                    want = expected_text(kind, exp)
+                    want = expected_text(kind, exp, vals)
                 self.view.append(
                     f"render #{si + 1} layers={sorted(present)} expected={label} "
                     f"site={kind}: printed {text!r}, expected "
@@ -1324,9 +1552,21 @@ class O2:
                     good = classify(kind, text, name) in ("unknown-value", "unknown")
                 else:
                     good = text == want
+                if pm and not good and text == PARTIAL_MATTER and exp not in (
+                        "block", "local", "render-arg"):
+                    # whether a partial's own matter is visible inside it at all is not
+                    # documented (HEAD ignores it); it may only not outrank blocks,
+                    # locals and render() arguments
+                    good = True
+                    if record:
+                        ctx.count("partial_matter_shown(diagnostic)")
                 if good:
                     continue
                 actual = classify(kind, text, name)
+                if pm and text == PARTIAL_MATTER:
+                    actual = "partial-matter"
+                if context == "lambda" and actual not in VAL:
+                    actual = "not-the-lambda-parameter"
                 if si > 0 and actual == "render-arg" and not with_r:
                     actual = "render-arg of a previous render"
                 viol(
@@ -1350,6 +1590,12 @@ class O2:
                     del v["witnesses"][3:]
         if record:
             ctx.count("site_checks", nsites)
+            if pm:
+                ctx.count("partial_matter_renders", len(steps))
+            if variant.startswith("translate"):
+                ctx.count("translate_site_checks", nsites)
+            if context == "lambda":
+                ctx.count("lambda_site_checks", nsites)
             if falsy:
                 ctx.count("falsy_site_checks", nsites)
                 ctx.count("falsy_renders", len(steps))
@@ -1381,6 +1627,10 @@ NIL_APPLICABLE = sum(
 
 
 def _run_o2(spec: dict[str, Any], ctx: Ctx) -> None:
+    if spec["context"] == "all":
+        for c in ("root", "include", "render", "macro", "extends"):
+            _run_o2(dict(spec, context=c), ctx)
+        return
     name, context = spec["name"], spec["context"]
     tier = spec["tier"]
     o2 = O2(ctx)
@@ -1400,10 +1650,16 @@ def _run_o2(spec: dict[str, Any], ctx: Ctx) -> None:
             and m & BIT["block"] and m & BIT["local"]
         )
 
+    variants = variants_for(name, context)
+    special = name == COUNT_NAME or context == "lambda"
+    subset_set = ("layer_subsets_count" if name == COUNT_NAME
+                  else "layer_subsets_lambda" if context == "lambda" else "layer_subsets")
     for bi, base in enumerate(bases):
         if bi % spec["n"] != spec["i"]:
             continue
-        for variant in CONTEXTS[context]:
+        if context == "lambda" and not base & BIT["block"]:
+            continue  # the lambda parameter is the block layer
+        for vi, variant in enumerate(variants):
             if undocumented(variant, base):
                 ctx.count("o2_undocumented_not_generated")
                 continue
@@ -1414,15 +1670,38 @@ def _run_o2(spec: dict[str, Any], ctx: Ctx) -> None:
             if dup:
                 ctx.count("o2_variants_collapsed")
                 continue
-            for api, mode, style in (APIS if tier == "quick" else ALL_APIS):
+            if tier != "quick":
+                apis = ALL_APIS
+            elif context == "lambda" or variant.startswith("translate"):
+                apis = [APIS[(bi + vi) % len(APIS)], APIS[(bi + vi + 1) % len(APIS)]]
+            elif variant in LATE_VARIANTS:
+                apis = [APIS[(bi + vi) % len(APIS)]]
+            elif vi:
+                # two of the four api/mode/argument-style combinations, rotating
+                apis = [APIS[(bi + vi) % len(APIS)], APIS[(bi + vi + 1) % len(APIS)]]
+            else:
+                apis = APIS
+            for api, mode, style in apis:
                 for steps in step_orders:
                     case = {"name": name, "mask": base, "context": context,
                             "variant": variant, "api": api, "mode": mode, "args": style,
                             "steps": steps}
                     o2.execute(case)
                     last = case
+            # ---- the partial's own loader matter binds the name too -----------------
+            if (context in ("include", "render", "extends") and not special
+                    and not variant.endswith("+decoy")):
+                papis = ALL_APIS if tier != "quick" else [APIS[(bi + vi) % len(APIS)]]
+                for api, mode, style in papis:
+                    o2.execute({"name": name, "mask": base, "context": context,
+                                "variant": variant, "api": api, "mode": mode, "args": style,
+                                "steps": [True, False], "pm": True})
+                for m in (base, base | BIT["render-arg"]):
+                    ctx.seen(f"layer_subsets_partial_matter_{context}", f"{name}:{m:07b}")
         for m in (base, base | BIT["render-arg"]):
-            ctx.seen("layer_subsets", f"{name}:{m:07b}")
+            ctx.seen(subset_set, f"{name}:{m:07b}")
+            if special:
+                continue
             ctx.seen(f"layer_subsets_{context}", f"{name}:{m:07b}")
             if context == "root" and name in ("n", "now"):
                 ctx.count("layer_subsets")
@@ -1434,11 +1713,11 @@ def _run_o2(spec: dict[str, Any], ctx: Ctx) -> None:
                 stricts = (False, True) if (fk, fmode) == ("nil", "inner") else ((m + pi) % 2 == 1,)
                 ran = False
                 for strict in stricts:
-                    for vi, variant in enumerate(CONTEXTS[context]):
+                    for vi, variant in enumerate(variants):
                         if undocumented(variant, m):
                             continue
-                        if (fk == "elist" and (context, variant) == ("include", "bind")
-                                and m & BIT["block"]):
+                        if (fk == "elist" and m & BIT["block"]
+                                and (context, variant) in (("include", "bind"), ("include", "alias"))):
                             continue  # `include … with <array>` iterates: zero renders
                         if tier == "quick" and vi:
                             # quick: nil/false in the resolving layer run every variant
@@ -1447,10 +1726,16 @@ def _run_o2(spec: dict[str, Any], ctx: Ctx) -> None:
                             if fk in ("nil", "false") and fmode == "inner":
                                 if strict and fk == "nil" and (m + vi) % 2:
                                     continue
-                            elif (m + vi + pi) % 3:
+                                if variant in LATE_VARIANTS and (strict or (m + vi) % 2):
+                                    continue
+                            elif variant in LATE_VARIANTS or (m + vi + pi) % 3:
                                 continue
                         falsy = {"kind": fk, "mode": fmode, "lit": (m + vi + pi) % 2 == 0,
-                                 "strict": strict}
+                                 "strict": strict,
+                                 # quick: nil/false in the resolving layer use every
+                                 # lookup site, the other profiles the telling ones
+                                 "reduced": tier == "quick" and not (
+                                     fk in ("nil", "false") and fmode == "inner")}
                         tpls = build(name, m, context, variant, None, falsy)
                         sig = hhex(sorted(tpls.items()), m, fk, fmode, strict)
                         if sig in seen_src:
@@ -1472,6 +1757,90 @@ def _run_o2(spec: dict[str, Any], ctx: Ctx) -> None:
     if last:
         ctx.sample({"kind": "layers", "case": last,
                     "templates": build(name, last["mask"], context, last["variant"])})
+
+
+# ---------------------------------------------------------------------------------------
+# names bound by tags themselves: forloop, tablerowloop, args, kwargs
+# ---------------------------------------------------------------------------------------
+
+TAGNAMES: dict[str, dict[str, Any]] = {
+    "forloop": {"probe": "forloop.index", "open": "{% for c10x in c10src %}",
+                "close": "{% endfor %}", "want": "1", "shape": "map", "flavour": ""},
+    "tablerowloop": {"probe": "tablerowloop.index", "open": "{% tablerow c10x in c10src %}",
+                     "close": "{% endtablerow %}", "want": "1", "shape": "map",
+                     "flavour": "shopify"},
+    "args": {"probe": "args[0]", "macro": True, "want": "vB", "shape": "list", "flavour": ""},
+    "kwargs": {"probe": "kwargs.index", "macro": True, "want": "vB", "shape": "map",
+               "flavour": ""},
+}
+TAGNAME_BITS = ("block", "local", "render-arg", "matter", "template-global", "env-global")
+
+
+def _run_tagnames(spec: dict[str, Any], ctx: Ctx) -> None:
+    """The object a tag binds for its body (forloop, tablerowloop, a macro's args and
+    kwargs) must shadow every outer binding of that name; outside the tag the usual
+    order applies.  Outer layers bind the name to a map/list holding their marker."""
+    from liquid2 import Environment
+    from liquid2.shopify import Environment as ShopifyEnvironment
+
+    loader_cls = _make_loader_class()
+
+    def shape(kind: str, v: str) -> Any:
+        return {"index": v} if kind == "map" else [v]
+
+    for tname, d in TAGNAMES.items():
+        marker = f"{OPEN}out:{{{{ {d['probe']} }}}}{CLOSE}"
+        for mask in range(64):
+            present = {b for i, b in enumerate(TAGNAME_BITS) if mask >> i & 1}
+            if d.get("macro"):
+                if "block" not in present or "local" in present:
+                    continue  # args/kwargs are always bound; assign vs argument: undocumented
+                root = ("{% macro m %}" + marker + "{% endmacro %}"
+                        "{% call m 'vB', index: 'vB' %}")
+            else:
+                asg = f"{{% assign {tname} = c10h %}}" if "local" in present else ""
+                root = (asg + d["open"] + marker + d["close"] if "block" in present
+                        else asg + marker)
+            g: dict[str, Any] = {"c10src": ["x"], "c10h": shape(d["shape"], "vL")}
+            if "env-global" in present:
+                g[tname] = shape(d["shape"], "vE")
+            cls = ShopifyEnvironment if d["flavour"] == "shopify" else Environment
+            matter = {tname: shape(d["shape"], "vM")} if "matter" in present else None
+            env = cls(loader=loader_cls({"root": root}, {"root": matter} if matter else {}),
+                      globals=g)
+            tg = {tname: shape(d["shape"], "vT")} if "template-global" in present else None
+            args = {tname: shape(d["shape"], "vR")} if "render-arg" in present else {}
+            exp = next((la for la in ORDER if la in present), None)
+            want = d["want"] if exp == "block" else (VAL[exp] if exp else "")
+            for api, mode in (("get_template", "sync"), ("from_string", "async")):
+                wit = {"o": "tagname", "tag_name": tname, "layers_present": sorted(present),
+                       "templates": {"root": root}, "api": api, "mode": mode}
+                try:
+                    if api == "get_template":
+                        t = env.get_template("root", globals=tg)
+                    else:
+                        t = env.from_string(root, globals=tg, overlay_data=matter)
+                    out = t.render(**args) if mode == "sync" else drive(t.render_async(**args))
+                except Exception as e:  # noqa: BLE001
+                    ctx.violation(f"precedence:error:{type(e).__name__} in tagname-{tname}",
+                                  f"render raised {e!r}"[:300], wit)
+                    continue
+                ctx.ev()
+                ctx.count("tagname_site_checks")
+                ctx.seen("tagnames", tname)
+                ctx.nt("tagname", tname, mask, api)
+                found = re.findall(f"{OPEN}out:(.*?){CLOSE}", out, re.S)
+                if found != [want]:
+                    actual = classify("out", found[0] if found else "", tname)
+                    ctx.violation(
+                        f"precedence:{exp or 'undefined'} shadowed-by {actual} in tagname-{tname}",
+                        f"{{{{ {d['probe']} }}}} with layers {sorted(present)} printed {found}; "
+                        f"documented order gives layer {exp} ({want!r})", wit)
+
+
+def _replay_tagname(wit: dict[str, Any], ctx: Ctx) -> None:  # noqa: ARG001
+    print(f"replay C10/tagname: {wit['tag_name']} layers={wit['layers_present']}: re-run the "
+          f"tagnames shard (vf.run C10 --only tagnames); template: {wit['templates']['root']}")
 
 
 # ---------------------------------------------------------------------------------------
@@ -1786,7 +2155,9 @@ def _run_o2c(spec: dict[str, Any], ctx: Ctx) -> None:
 
 
 def shards(tier: str, seed: int) -> list[dict[str, Any]]:  # noqa: ARG001
-    specs: list[dict[str, Any]] = [{"kind": "selftest", "i": 0, "n": 1}]
+    specs: list[dict[str, Any]] = [{"kind": "selftest", "i": 0, "n": 1},
+                                   {"kind": "vivify", "i": 0, "n": 1},
+                                   {"kind": "tagnames", "i": 0, "n": 1}]
     nf = 9 if tier == "quick" else 24
     for i in range(nf):
         specs.append({"kind": "filters", "i": i, "n": nf})
@@ -1800,6 +2171,8 @@ def shards(tier: str, seed: int) -> list[dict[str, Any]]:  # noqa: ARG001
         for context, n in (("root", 3), ("include", 3), ("render", 3), ("macro", 3), ("extends", 2)):
             for i in range(n):
                 specs.append({"kind": "layers", "name": name, "context": context, "i": i, "n": n})
+        specs.append({"kind": "layers", "name": name, "context": "lambda", "i": 0, "n": 1})
+    specs.append({"kind": "layers", "name": COUNT_NAME, "context": "all", "i": 0, "n": 1})
     ncached = 2 if tier == "quick" else 6
     for name in NAMES:
         for i in range(ncached):
@@ -1839,6 +2212,18 @@ def floors(tier: str) -> dict[str, int]:
         "cache_hits": 6000,
         "cached_site_checks": 200_000,
         "cached_partial_probes": 3000,
+        # lookup sites inside every name-binding tag
+        "translate_site_checks": 10_000,
+        "lambda_site_checks": 5000,
+        "set:layer_subsets_count": 128,
+        "set:layer_subsets_lambda": 192,
+        "tagname_site_checks": 300,
+        "set:tagnames": len(TAGNAMES),
+        # the partial's own loader matter as a layer
+        "partial_matter_renders": 3000,
+        "set:layer_subsets_partial_matter_include": 384,
+        "set:layer_subsets_partial_matter_render": 384,
+        "set:layer_subsets_partial_matter_extends": 384,
     }
 
 
@@ -1848,6 +2233,8 @@ def exhaustive(tier: str, merged: dict[str, Any]) -> bool:  # noqa: ARG001
         len(sets.get("layer_subsets", ())) == len(NAMES) * 128
         and all(len(sets.get(f"layer_subsets_{fk}", ())) == NIL_APPLICABLE for fk in FALSY)
         and len(sets.get("layer_subsets_cached", ())) == len(NAMES) * 128
+        and len(sets.get("layer_subsets_count", ())) == 128
+        and len(sets.get("layer_subsets_partial_matter_render", ())) == len(NAMES) * 128
         and not merged["failed"]
     )
 
@@ -1859,11 +2246,17 @@ def run_shard(spec: dict[str, Any], ctx: Ctx) -> None:
         _run_o2(spec, ctx)
     elif spec["kind"] == "cached":
         _run_o2c(spec, ctx)
+    elif spec["kind"] == "tagnames":
+        _run_tagnames(spec, ctx)
     else:
         _run_o1(spec, ctx)
 
 
 def replay(wit: dict[str, Any], ctx: Ctx) -> None:
+    if wit.get("o") == "tagname":
+        _run_tagnames({"tier": "quick"}, ctx)
+        _replay_tagname(wit, ctx)
+        return
     if wit.get("o") == "O2c":
         o = O2Cached(ctx)
         try:
